@@ -162,6 +162,33 @@ static void kind_session(Tape &t)
 	VF_CHECK(cr == (cm != 0) && sr == (sm != 0), "%s: reset results %d/%d do not match the documented minimum sizes", desc.c_str(), cr, sr);
 	if (!cr || !sr) { stats.eval(fmt("minsize/%zu/%zu", ci, sI)); return; }
 	VF_CHECK(c.eng->max_frag_len == cm && s.eng->max_frag_len == sm, "%s: engine fragment lengths %u/%u", desc.c_str(), (unsigned)c.eng->max_frag_len, (unsigned)s.eng->max_frag_len);
+	unsigned before = t.u8() % 4;
+	if (before == 1 || before == 2) {
+		// the server context has already served another client (reset per connection, as servers do): what that
+		// client negotiated - or merely asked for in a lone ClientHello - must not carry over
+		Profile p0 = cp;
+		p0.layout = L_SPLIT;
+		size_t m0 = MFL[t.u8() % 4];
+		p0.ilen = m0 + 325; p0.olen = m0 + 85;
+		BearClient c0(p0);
+		VF_CHECK(c0.reset(), "%s: earlier client reset failed", desc.c_str());
+		Session S0(&c0, &s);
+		if (before == 1) {
+			S0.script[0].push_back(Item{ IT_WRITE, 10, true });
+			S0.script[1].push_back(Item{ IT_WRITE, 10, true });
+			S0.script[0].push_back(Item{ IT_WAIT_PEER_IDLE, 0, true });
+			S0.script[0].push_back(Item{ IT_CLOSE, 0, true });
+			S0.run(3000000);
+			VF_CHECK(S0.established, "%s: earlier connection (client asking for %zu) failed (errors %d/%d)", desc.c_str(), m0, c0.error(), s.error());
+		} else {
+			// only the ClientHello reaches the server, then the connection is dropped
+			for (int i = 0; i < 6; i++) S0.round();
+		}
+		VF_CHECK(s.reset(), "%s: server reset for the next client failed (error %d)", desc.c_str(), s.error());
+		VF_CHECK(s.eng->max_frag_len == sm, "%s: after serving a client that asked for %zu-byte fragments and a reset, the server's fragment length is %u (its buffers give %zu)", desc.c_str(), m0, (unsigned)s.eng->max_frag_len, sm);
+		desc += fmt(" [server context reused after a client asking for %zu%s]", m0, before == 2 ? ", ClientHello only" : "");
+		stats.cls("server-context-reused");
+	}
 	Session S(&c, &s);
 	S.tape = &t;
 	S.wire_in_pol[0].mode = (ChunkMode)(t.u8() % 4 == 3 ? CH_HDR : CH_WHOLE);
